@@ -34,7 +34,9 @@ import (
 	"fmt"
 	"os"
 	"path/filepath"
+	"regexp"
 	"sort"
+	"strconv"
 	"strings"
 	"time"
 
@@ -181,6 +183,25 @@ func run(hist []string) core.Outcome {
 	return o
 }
 
+// normPanics makes panic fingerprints stable: node hashes and sizes inside the message are data.
+var hexRun = regexp.MustCompile(`[0-9a-f]{8,}|[0-9]+`)
+
+func normPanics(f core.RunFunc) core.RunFunc {
+	return func(h []string) core.Outcome {
+		o := f(h)
+		for i, v := range o.Violations {
+			if strings.HasPrefix(v.Fingerprint, prop+"/panic/") {
+				fp := hexRun.ReplaceAllString(v.Fingerprint, "#")
+				if len(h) > 0 && scenarios[h[0]] != nil {
+					fp += "/" + trieKind(scenarios[h[0]])
+				}
+				o.Violations[i].Fingerprint = fp
+			}
+		}
+		return o
+	}
+}
+
 // trace prints the raw dump after every event (replay mode).
 var trace bool
 
@@ -263,13 +284,13 @@ func minimise(o core.Outcome, hist []string, run core.RunFunc) core.Outcome {
 func initScenarios() {
 	// plain trie; key indices: 0 "", 1 00, 2 01, 3 10, 4 0000, 5 0001, 6 = 0000ab…ab (32 bytes)
 	// value indices: 1 = 1 byte, 2 = 31, 3 = 32, 4 = 100, 5 = 28, 6 = 29 bytes, 7 = 1 byte >= 0x80
-	addScenario("pA", false, []int{0, 1, 2, 3}, []int{1, 3}, 4, 6) // value in the branch's 17th slot, sibling leaves
+	addScenario("pA", false, []int{0, 1, 2, 3}, []int{1, 3}, 5, 6) // value in the branch's 17th slot, sibling leaves
 	addScenario("pB", false, []int{1, 4, 5}, []int{1, 4}, 5, 6)    // extension + nested branch carrying a value
 	addScenario("pC", false, []int{4, 5, 6}, []int{2, 3}, 5, 6)    // long key below a shared prefix, 31/32-byte values
 	addScenario("pD", false, []int{1, 2}, []int{5, 6, 7}, 5, 7)    // leaf exactly below / at the 32-byte embedding threshold
-	addScenario("pE", false, []int{0, 1, 2, 3, 4, 5, 6}, []int{1, 4}, 3, 4)
+	addScenario("pE", false, []int{0, 1, 2, 3, 4, 5, 6}, []int{1, 4}, 4, 4)
 	// secure trie; key indices 0..3 (hashed keys share 2 nibbles / 1 nibble / nothing with key 0)
-	addScenario("sA", true, []int{0, 1, 2, 3}, []int{1, 3}, 4, 5)
+	addScenario("sA", true, []int{0, 1, 2, 3}, []int{1, 3}, 5, 5)
 	addScenario("sB", true, []int{0, 1, 2}, []int{2, 4}, 5, 6)
 	sort.Strings(scenarioNames)
 }
@@ -289,7 +310,7 @@ func main() {
 	node.Quiet()
 	initUniverse()
 	initScenarios()
-	safe := core.SafeRun(prop, run)
+	safe := normPanics(core.SafeRun(prop, run))
 	if core.Opt.Worker == "serve" || core.Opt.Replay != "" {
 		openChainDB()
 		defer os.RemoveAll(dbDir)
@@ -298,6 +319,7 @@ func main() {
 		var rp struct {
 			History []string    `json:"history"`
 			Merkle  *merkleCase `json:"merkle"`
+			Other   string      `json:"merkle_other"`
 		}
 		if err := core.LoadReplay(core.Opt.Replay, &rp); err != nil {
 			fmt.Fprintln(os.Stderr, err)
@@ -307,7 +329,15 @@ func main() {
 		if rp.Merkle != nil {
 			fmt.Printf("replay merkle case %+v\n", *rp.Merkle)
 			r := core.NewResult(prop, "model_checking")
-			checkMerkleCase(r, *rp.Merkle)
+			if rp.Other != "" {
+				var l []int
+				for _, f := range strings.Fields(rp.Other) {
+					n, _ := strconv.Atoi(f)
+					l = append(l, n)
+				}
+				mergeCase(r, checkMerkleCase(merkleCase{rp.Merkle.Family, l}))
+			}
+			mergeCase(r, checkMerkleCase(*rp.Merkle))
 			for _, v := range r.Violations {
 				fmt.Printf("VIOLATION-REPLAYED %s\n%s\n", v.Fingerprint, v.What)
 				failed = true
